@@ -17,7 +17,8 @@
 (*     outcome would be different later in the window -- this explores every    *)
 (*     instant of the window without keeping a "not yet read" copy of the state *)
 (*   - FetchReturn (the fetcher's answer is published between the harness's     *)
-(*     fetch_ret stamp and fetch_done), the effect of a removal (inside its     *)
+(*     fetch_ret stamp and fetch_done), the worker's upgrade of its Weak before *)
+(*     fetch_start, the effect of a removal (inside its                         *)
 (*     bracket), a failed upgrade of the exiting worker's Weak (between exiting *)
 (*     and exit_notify), the final active_path.store(None) (between             *)
 (*     exit_notify and worker_exit), the release of the director's clone        *)
@@ -156,8 +157,7 @@ TRemoveEnd ==
 
 TFetchStart ==
   /\ E.ev = "fetch_start" /\ E.w \in Workers
-  /\ (FirstPoll(E.w) \/ Refetch(E.w))
-  /\ wpc'[E.w] = "fetching"
+  /\ BeginFetch(E.w)
   /\ UNCHANGED aux
 
 \* harness stamp: the fetcher is about to return outcome `note`
@@ -284,6 +284,12 @@ HExitRemove(w) ==
   /\ rem' = [rem EXCEPT ![w].st = IF managed[wkey[w]] # None THEN "removed" ELSE "noop"]
   /\ UNCHANGED <<fresh, pend, dropArmed, cancelArmed>>
 
+\* the worker upgraded its Weak (first poll or refetch tick) some time before it stamps fetch_start
+HUpgrade(w) ==
+  /\ (FirstPoll(w) \/ Refetch(w))
+  /\ wpc'[w] = "starting"
+  /\ UNCHANGED aux
+
 \* the manager was gone when the exiting worker tried to upgrade its Weak: no removal
 HExitSkip(w) ==
   /\ wpc[w] = "exiting" /\ ~Alive
@@ -302,7 +308,7 @@ THidden ==
   /\ l <= Len(Rec) /\ Rec[l].ev # "reset"
   /\ UNCHANGED l
   /\ \/ \E c \in Callers : ReRead(c) \/ HCancel(c) \/ HRelease(c)
-     \/ \E w \in Workers : HFetchReturn(w) \/ HExitRemove(w) \/ HExitSkip(w) \/ HClear(w)
+     \/ \E w \in Workers : HUpgrade(w) \/ HFetchReturn(w) \/ HExitRemove(w) \/ HExitSkip(w) \/ HClear(w)
      \/ HStop \/ HDrop
 
 TNext == TEvent \/ THidden
